@@ -147,3 +147,214 @@ Proof.
     try (intro x; apply accel_poly_derive); intro x; apply body_force2_smooth.
 Qed.
 End Increments.
+
+(** [w] is the angular velocity of the moving frame C(s) = (cij s) with respect to the frame its columns are
+    written in, resolved in the moving frame itself:  C^T C' = [w x]  at time t. *)
+Definition body_rate_of (c00 c01 c02 c10 c11 c12 c20 c21 c22 : R -> R) (t w0 w1 w2 : R) : Prop :=
+  (ex_derive c00 t /\ ex_derive c01 t /\ ex_derive c02 t /\ ex_derive c10 t /\ ex_derive c11 t /\
+   ex_derive c12 t /\ ex_derive c20 t /\ ex_derive c21 t /\ ex_derive c22 t) /\
+  c00 t * Derive c00 t + c10 t * Derive c10 t + c20 t * Derive c20 t = 0 /\
+  c00 t * Derive c01 t + c10 t * Derive c11 t + c20 t * Derive c21 t = - w2 /\
+  c00 t * Derive c02 t + c10 t * Derive c12 t + c20 t * Derive c22 t = w1 /\
+  c01 t * Derive c00 t + c11 t * Derive c10 t + c21 t * Derive c20 t = w2 /\
+  c01 t * Derive c01 t + c11 t * Derive c11 t + c21 t * Derive c21 t = 0 /\
+  c01 t * Derive c02 t + c11 t * Derive c12 t + c21 t * Derive c22 t = - w0 /\
+  c02 t * Derive c00 t + c12 t * Derive c10 t + c22 t * Derive c20 t = - w1 /\
+  c02 t * Derive c01 t + c12 t * Derive c11 t + c22 t * Derive c21 t = w0 /\
+  c02 t * Derive c02 t + c12 t * Derive c12 t + c22 t * Derive c22 t = 0.
+
+Ltac unf_rph := unfold mat_from_rph_m00, mat_from_rph_m01, mat_from_rph_m02, mat_from_rph_m10, mat_from_rph_m11,
+   mat_from_rph_m12, mat_from_rph_m20, mat_from_rph_m21, mat_from_rph_m22; repeat autounfold with mat_from_rph_db.
+Ltac split_all := repeat (match goal with |- _ /\ _ => split end).
+
+(** * 2. A body at rest *)
+
+(** longitude of the Earth-fixed meridian [lon] seen from the inertial frame that coincides with ECEF at t = 0
+    (generate_imu: lla_inertial[:, 1] += rad2deg(RATE) * time) *)
+Definition lon_i (lon t : R) : R := lon + RATE_ * (180 / PI) * t.
+
+Section AtRest.
+Variables lat lon alt : R.
+Let lam (s : R) : R := lon_i lon s.
+Let x (s : R) : R := lla_to_ecef_r0 lat (lam s) alt.
+Let y (s : R) : R := lla_to_ecef_r1 lat (lam s) alt.
+Let z (s : R) : R := lla_to_ecef_r2 lat (lam s) alt.
+
+Lemma rest_velocity t :
+  is_derive x t (- RATE_ * y t) /\ is_derive y t (RATE_ * x t) /\ is_derive z t 0.
+Proof.
+  subst x y z lam. unfold lon_i. unf_ecef.
+  pose proof (sqrtW_pos (lat * (PI/180))) as HQ.
+  split; [|split]; (auto_derive; [auto|]); field; (split; [lra | apply PI_neq0]) || apply PI_neq0.
+Qed.
+
+Lemma rest_acceleration t :
+  is_derive_n x 2 t (- (RATE_ * RATE_) * x t) /\
+  is_derive_n y 2 t (- (RATE_ * RATE_) * y t) /\
+  is_derive_n z 2 t 0.
+Proof.
+  pose proof (sqrtW_pos (lat * (PI/180))) as HQ.
+  split; [|split].
+  - change (is_derive (Derive x) t (- (RATE_ * RATE_) * x t)).
+    apply (is_derive_ext (fun s => - RATE_ * y s)).
+    + intro s. symmetry. apply is_derive_unique. apply rest_velocity.
+    + subst x y z lam. unfold lon_i. unf_ecef.
+      auto_derive; [auto|]. field. split; [lra | apply PI_neq0].
+  - change (is_derive (Derive y) t (- (RATE_ * RATE_) * y t)).
+    apply (is_derive_ext (fun s => RATE_ * x s)).
+    + intro s. symmetry. apply is_derive_unique. apply rest_velocity.
+    + subst x y z lam. unfold lon_i. unf_ecef.
+      auto_derive; [auto|]. field. split; [lra | apply PI_neq0].
+  - change (is_derive (Derive z) t 0).
+    apply (is_derive_ext (fun s => 0)).
+    + intro s. symmetry. apply is_derive_unique. apply rest_velocity.
+    + auto_derive; [auto|]. ring.
+Qed.
+
+(** the inertially referenced NED frame of the resting body turns with Earth rate: d/dt C = [Omega x] C *)
+Lemma rest_frame_derive t :
+  is_derive (fun s => mat_en_from_ll_m00 lat (lam s)) t (- RATE_ * mat_en_from_ll_m10 lat (lam t)) /\
+  is_derive (fun s => mat_en_from_ll_m01 lat (lam s)) t (- RATE_ * mat_en_from_ll_m11 lat (lam t)) /\
+  is_derive (fun s => mat_en_from_ll_m02 lat (lam s)) t (- RATE_ * mat_en_from_ll_m12 lat (lam t)) /\
+  is_derive (fun s => mat_en_from_ll_m10 lat (lam s)) t (RATE_ * mat_en_from_ll_m00 lat (lam t)) /\
+  is_derive (fun s => mat_en_from_ll_m11 lat (lam s)) t (RATE_ * mat_en_from_ll_m01 lat (lam t)) /\
+  is_derive (fun s => mat_en_from_ll_m12 lat (lam s)) t (RATE_ * mat_en_from_ll_m02 lat (lam t)) /\
+  is_derive (fun s => mat_en_from_ll_m20 lat (lam s)) t 0 /\
+  is_derive (fun s => mat_en_from_ll_m21 lat (lam s)) t 0 /\
+  is_derive (fun s => mat_en_from_ll_m22 lat (lam s)) t 0.
+Proof.
+  subst lam. unfold lon_i. unf_en.
+  repeat (match goal with |- _ /\ _ => split end); (auto_derive; [auto|]); field; apply PI_neq0.
+Qed.
+
+Lemma rest_specific_force t :
+  -90 <= lat <= 90 ->
+  let fx := Derive_n x 2 t - gravitation_ecef_g0 lat (lam t) alt in
+  let fy := Derive_n y 2 t - gravitation_ecef_g1 lat (lam t) alt in
+  let fz := Derive_n z 2 t - gravitation_ecef_g2 lat (lam t) alt in
+  mat_en_from_ll_m00 lat (lam t) * fx + mat_en_from_ll_m10 lat (lam t) * fy + mat_en_from_ll_m20 lat (lam t) * fz = 0 /\
+  mat_en_from_ll_m01 lat (lam t) * fx + mat_en_from_ll_m11 lat (lam t) * fy + mat_en_from_ll_m21 lat (lam t) * fz = 0 /\
+  mat_en_from_ll_m02 lat (lam t) * fx + mat_en_from_ll_m12 lat (lam t) * fy + mat_en_from_ll_m22 lat (lam t) * fz
+    = - gravity_g lat alt.
+Proof.
+  intros Hlat. cbv zeta.
+  destruct (rest_acceleration t) as [Hx [Hy Hz]].
+  rewrite (is_derive_n_unique _ _ _ _ Hx), (is_derive_n_unique _ _ _ _ Hy), (is_derive_n_unique _ _ _ _ Hz).
+  destruct (gravitation_is_gravity_minus_centrifugal lat (lam t) alt Hlat) as [G0 [G1 G2]].
+  rewrite G0, G1, G2. unfold centrifugal_x, centrifugal_y, centrifugal_z.
+  fold (x t) (y t) (z t).
+  generalize (gravity_g lat alt) (x t) (y t) (z t). intros g X Y Z.
+  unf_en. rewrite !cos_m90, !sin_m90.
+  set (phi := lat * (PI / 180)). set (l := lam t * (PI / 180)).
+  assert (Hp : sin phi * sin phi = 1 - cos phi * cos phi) by (pose proof (sc1 phi); lra).
+  assert (Hl : sin l * sin l = 1 - cos l * cos l) by (pose proof (sc1 l); lra).
+  repeat split; ring [Hp Hl].
+Qed.
+
+(** the inertially referenced NED frame of the resting body turns with rate_n(lat), resolved in NED *)
+Lemma rest_frame_rate t :
+  body_rate_of (fun s => mat_en_from_ll_m00 lat (lam s)) (fun s => mat_en_from_ll_m01 lat (lam s))
+               (fun s => mat_en_from_ll_m02 lat (lam s)) (fun s => mat_en_from_ll_m10 lat (lam s))
+               (fun s => mat_en_from_ll_m11 lat (lam s)) (fun s => mat_en_from_ll_m12 lat (lam s))
+               (fun s => mat_en_from_ll_m20 lat (lam s)) (fun s => mat_en_from_ll_m21 lat (lam s))
+               (fun s => mat_en_from_ll_m22 lat (lam s)) t (rate_n_w0 lat) (rate_n_w1 lat) (rate_n_w2 lat).
+Proof.
+  destruct (rest_frame_derive t) as [D00 [D01 [D02 [D10 [D11 [D12 [D20 [D21 D22]]]]]]]].
+  unfold body_rate_of. split.
+  - split_all; eexists; eassumption.
+  - rewrite (is_derive_unique _ _ _ D00), (is_derive_unique _ _ _ D01), (is_derive_unique _ _ _ D02),
+      (is_derive_unique _ _ _ D10), (is_derive_unique _ _ _ D11), (is_derive_unique _ _ _ D12),
+      (is_derive_unique _ _ _ D20), (is_derive_unique _ _ _ D21), (is_derive_unique _ _ _ D22).
+    unf_rate. unf_en. rewrite !cos_m90, !sin_m90. unfold RATE_.
+    set (phi := lat * (PI / 180)). set (l := lam t * (PI / 180)).
+    assert (Hp : sin phi * sin phi = 1 - cos phi * cos phi) by (pose proof (sc1 phi); lra).
+    assert (Hl : sin l * sin l = 1 - cos l * cos l) by (pose proof (sc1 l); lra).
+    split_all; ring [Hp Hl].
+Qed.
+
+(** attitude of the resting body: C_ib(s) = C_in(s) C_nb with C_nb = mat_from_rph(roll, pitch, heading) fixed *)
+Variables roll pitch heading : R.
+Let R00 := mat_from_rph_m00 roll pitch heading. Let R01 := mat_from_rph_m01 roll pitch heading.
+Let R02 := mat_from_rph_m02 roll pitch heading. Let R10 := mat_from_rph_m10 roll pitch heading.
+Let R11 := mat_from_rph_m11 roll pitch heading. Let R12 := mat_from_rph_m12 roll pitch heading.
+Let R20 := mat_from_rph_m20 roll pitch heading. Let R21 := mat_from_rph_m21 roll pitch heading.
+Let R22 := mat_from_rph_m22 roll pitch heading.
+Let B00 s := dot3 (mat_en_from_ll_m00 lat (lam s)) (mat_en_from_ll_m01 lat (lam s)) (mat_en_from_ll_m02 lat (lam s)) R00 R10 R20.
+Let B01 s := dot3 (mat_en_from_ll_m00 lat (lam s)) (mat_en_from_ll_m01 lat (lam s)) (mat_en_from_ll_m02 lat (lam s)) R01 R11 R21.
+Let B02 s := dot3 (mat_en_from_ll_m00 lat (lam s)) (mat_en_from_ll_m01 lat (lam s)) (mat_en_from_ll_m02 lat (lam s)) R02 R12 R22.
+Let B10 s := dot3 (mat_en_from_ll_m10 lat (lam s)) (mat_en_from_ll_m11 lat (lam s)) (mat_en_from_ll_m12 lat (lam s)) R00 R10 R20.
+Let B11 s := dot3 (mat_en_from_ll_m10 lat (lam s)) (mat_en_from_ll_m11 lat (lam s)) (mat_en_from_ll_m12 lat (lam s)) R01 R11 R21.
+Let B12 s := dot3 (mat_en_from_ll_m10 lat (lam s)) (mat_en_from_ll_m11 lat (lam s)) (mat_en_from_ll_m12 lat (lam s)) R02 R12 R22.
+Let B20 s := dot3 (mat_en_from_ll_m20 lat (lam s)) (mat_en_from_ll_m21 lat (lam s)) (mat_en_from_ll_m22 lat (lam s)) R00 R10 R20.
+Let B21 s := dot3 (mat_en_from_ll_m20 lat (lam s)) (mat_en_from_ll_m21 lat (lam s)) (mat_en_from_ll_m22 lat (lam s)) R01 R11 R21.
+Let B22 s := dot3 (mat_en_from_ll_m20 lat (lam s)) (mat_en_from_ll_m21 lat (lam s)) (mat_en_from_ll_m22 lat (lam s)) R02 R12 R22.
+
+Lemma rest_body_derive t :
+  is_derive B00 t (- RATE_ * B10 t) /\ is_derive B01 t (- RATE_ * B11 t) /\ is_derive B02 t (- RATE_ * B12 t) /\
+  is_derive B10 t (RATE_ * B00 t) /\ is_derive B11 t (RATE_ * B01 t) /\ is_derive B12 t (RATE_ * B02 t) /\
+  is_derive B20 t 0 /\ is_derive B21 t 0 /\ is_derive B22 t 0.
+Proof.
+  subst B00 B01 B02 B10 B11 B12 B20 B21 B22. cbv beta.
+  generalize R00 R01 R02 R10 R11 R12 R20 R21 R22. intros r00 r01 r02 r10 r11 r12 r20 r21 r22.
+  subst lam. unfold dot3, lon_i. unf_en.
+  split_all; (auto_derive; [auto|]); field; apply PI_neq0.
+Qed.
+
+(** gyro of the resting body: C_nb^T rate_n(lat) *)
+Lemma rest_body_rate t :
+  body_rate_of B00 B01 B02 B10 B11 B12 B20 B21 B22 t
+    (dot3 R00 R10 R20 (rate_n_w0 lat) (rate_n_w1 lat) (rate_n_w2 lat))
+    (dot3 R01 R11 R21 (rate_n_w0 lat) (rate_n_w1 lat) (rate_n_w2 lat))
+    (dot3 R02 R12 R22 (rate_n_w0 lat) (rate_n_w1 lat) (rate_n_w2 lat)).
+Proof.
+  destruct (rest_body_derive t) as [D00 [D01 [D02 [D10 [D11 [D12 [D20 [D21 D22]]]]]]]].
+  unfold body_rate_of. split.
+  - split_all; eexists; eassumption.
+  - rewrite (is_derive_unique _ _ _ D00), (is_derive_unique _ _ _ D01), (is_derive_unique _ _ _ D02),
+      (is_derive_unique _ _ _ D10), (is_derive_unique _ _ _ D11), (is_derive_unique _ _ _ D12),
+      (is_derive_unique _ _ _ D20), (is_derive_unique _ _ _ D21), (is_derive_unique _ _ _ D22).
+    subst B00 B01 B02 B10 B11 B12 B20 B21 B22 R00 R01 R02 R10 R11 R12 R20 R21 R22. cbv beta.
+    unfold dot3. unf_rate. unf_en. unf_rph. rewrite !cos_m90, !sin_m90. unfold RATE_.
+    set (phi := lat * (PI / 180)). set (l := lam t * (PI / 180)).
+    set (ro := roll * (PI / 180)). set (pi := pitch * (PI / 180)). set (he := heading * (PI / 180)).
+    assert (Hp : sin phi * sin phi = 1 - cos phi * cos phi) by (pose proof (sc1 phi); lra).
+    assert (Hl : sin l * sin l = 1 - cos l * cos l) by (pose proof (sc1 l); lra).
+    assert (Hr : sin ro * sin ro = 1 - cos ro * cos ro) by (pose proof (sc1 ro); lra).
+    assert (Hq : sin pi * sin pi = 1 - cos pi * cos pi) by (pose proof (sc1 pi); lra).
+    assert (Hh : sin he * sin he = 1 - cos he * cos he) by (pose proof (sc1 he); lra).
+    split_all; ring [Hp Hl Hr Hq Hh].
+Qed.
+
+(** accelerometer of the resting body, in body axes: - C_nb^T (0, 0, g) *)
+Lemma rest_body_specific_force t :
+  -90 <= lat <= 90 ->
+  let fx := Derive_n x 2 t - gravitation_ecef_g0 lat (lam t) alt in
+  let fy := Derive_n y 2 t - gravitation_ecef_g1 lat (lam t) alt in
+  let fz := Derive_n z 2 t - gravitation_ecef_g2 lat (lam t) alt in
+  B00 t * fx + B10 t * fy + B20 t * fz = - (R20 * gravity_g lat alt) /\
+  B01 t * fx + B11 t * fy + B21 t * fz = - (R21 * gravity_g lat alt) /\
+  B02 t * fx + B12 t * fy + B22 t * fz = - (R22 * gravity_g lat alt).
+Proof.
+  intros Hlat. destruct (rest_specific_force t Hlat) as [E0 [E1 E2]]. cbv zeta in *.
+  revert E0 E1 E2.
+  generalize (Derive_n x 2 t - gravitation_ecef_g0 lat (lam t) alt)
+             (Derive_n y 2 t - gravitation_ecef_g1 lat (lam t) alt)
+             (Derive_n z 2 t - gravitation_ecef_g2 lat (lam t) alt) (gravity_g lat alt).
+  intros fx fy fz g E0 E1 E2.
+  subst B00 B01 B02 B10 B11 B12 B20 B21 B22. cbv beta. unfold dot3.
+  generalize R00 R01 R02 R10 R11 R12 R20 R21 R22. intros r00 r01 r02 r10 r11 r12 r20 r21 r22.
+  split_all.
+  - transitivity (r00 * (mat_en_from_ll_m00 lat (lam t) * fx + mat_en_from_ll_m10 lat (lam t) * fy + mat_en_from_ll_m20 lat (lam t) * fz)
+                + r10 * (mat_en_from_ll_m01 lat (lam t) * fx + mat_en_from_ll_m11 lat (lam t) * fy + mat_en_from_ll_m21 lat (lam t) * fz)
+                + r20 * (mat_en_from_ll_m02 lat (lam t) * fx + mat_en_from_ll_m12 lat (lam t) * fy + mat_en_from_ll_m22 lat (lam t) * fz)); [ring|].
+    rewrite E0, E1, E2. ring.
+  - transitivity (r01 * (mat_en_from_ll_m00 lat (lam t) * fx + mat_en_from_ll_m10 lat (lam t) * fy + mat_en_from_ll_m20 lat (lam t) * fz)
+                + r11 * (mat_en_from_ll_m01 lat (lam t) * fx + mat_en_from_ll_m11 lat (lam t) * fy + mat_en_from_ll_m21 lat (lam t) * fz)
+                + r21 * (mat_en_from_ll_m02 lat (lam t) * fx + mat_en_from_ll_m12 lat (lam t) * fy + mat_en_from_ll_m22 lat (lam t) * fz)); [ring|].
+    rewrite E0, E1, E2. ring.
+  - transitivity (r02 * (mat_en_from_ll_m00 lat (lam t) * fx + mat_en_from_ll_m10 lat (lam t) * fy + mat_en_from_ll_m20 lat (lam t) * fz)
+                + r12 * (mat_en_from_ll_m01 lat (lam t) * fx + mat_en_from_ll_m11 lat (lam t) * fy + mat_en_from_ll_m21 lat (lam t) * fz)
+                + r22 * (mat_en_from_ll_m02 lat (lam t) * fx + mat_en_from_ll_m12 lat (lam t) * fy + mat_en_from_ll_m22 lat (lam t) * fz)); [ring|].
+    rewrite E0, E1, E2. ring.
+Qed.
+End AtRest.
